@@ -110,9 +110,21 @@ Definition backup (m : mach) : mach * option bool :=
     end
   end.
 
-(* after the temporary file is closed: backup_file(<name>), then rename_file(<name>.tmp, <name>) *)
-Definition install (m : mach) : mach * result :=
-  let '(m1, b) := backup m in
+(* the writers of a state file.  colvarmodule::write_restart_file returns at the first error and leaves a
+   stream that failed while write_state() ran in the registry (sticky); colvarbias::write_state_prefix
+   (`cv bias <name> save`) and colvarbias_meta::write_replica_state_file always close the stream and go on
+   with the error remembered; the replica writer keeps no .old backup.  (For the replica writer an error of
+   remove_file is modelled as an early return; the code goes on and backup_file then moves the file that
+   could not be removed aside.) *)
+Record writer := mkW { w_sticky : bool; w_backup : bool }.
+Definition W_restart : writer := mkW true true.
+Definition W_bias : writer := mkW false true.
+Definition W_replica : writer := mkW false false.
+
+(* after the temporary file is closed: backup_file(<name>) (if the writer keeps a backup), then
+   rename_file(<name>.tmp, <name>) *)
+Definition install (w : writer) (m : mach) : mach * result :=
+  let '(m1, b) := if w_backup w then backup m else (m, Some false) in
   match b with
   | None => (m1, Dead)
   | Some true => (m1, Done false)
@@ -126,17 +138,24 @@ Definition install (m : mach) : mach * result :=
   end.
 
 (* write_state() into the open stream, close_output_stream(), then the two renames *)
-Definition body (m : mach) (chunks : list N) (tail : N) : mach * result :=
-  let '(m1, w) := write_chunks m chunks in
-  match w with
+Definition body (w : writer) (m : mach) (chunks : list N) (tail : N) : mach * result :=
+  let '(m1, r) := write_chunks m chunks in
+  match r with
   | None => (m1, Dead)
-  | Some true => (set_reg m1 (Open true), Done false)     (* return cvm::error(...): the stream stays registered *)
+  | Some true =>
+    if w_sticky w then (set_reg m1 (Open true), Done false)     (* return cvm::error(...): the stream stays registered *)
+    else                                                          (* close_output_stream() all the same *)
+      let '(o, m2) := pop m1 SClose in
+      match o with
+      | OKill _ => (m2, Dead)
+      | _ => (set_reg m2 NotOpen, Done false)
+      end
   | Some false =>
     let '(m2, c) := close_stream m1 tail in
     match c with
     | None => (m2, Dead)
     | Some true => (m2, Done false)
-    | Some false => install m2
+    | Some false => install w m2
     end
   end.
 
@@ -145,7 +164,7 @@ Definition total_of (chunks : list N) (tail : N) : N := fold_right N.add tail ch
 (* remove_file(<name>.tmp), then output_stream(<name>.tmp): backup_file finds no file (it has just been
    removed: access() says ENOENT) and the file is created.
    None = died; Some true = an error was returned to write_restart_file *)
-Definition open_tmp (m : mach) (v : N) (total : N) : mach * option bool :=
+Definition open_tmp (w : writer) (m : mach) (v : N) (total : N) : mach * option bool :=
   let '(o0, m0) := pop m SUnlink in
   match o0 with
   | OKill _ => (m0, None)
@@ -160,14 +179,15 @@ Definition open_tmp (m : mach) (v : N) (total : N) : mach * option bool :=
       let '(o3, m3) := pop m1 SOpen in
       match o3 with
       | OKill _ => (m3, None)
-      | OErr => (set_reg m3 (Open true), Some true)      (* the failed stream stays in the registry *)
+      | OErr => (if w_sticky w then set_reg m3 (Open true) else m3, Some true)
+          (* the failed stream is in the registry: write_restart_file leaves it there, the others close it *)
       | OOk => (set_reg (set_fs m3 (set_tmp (m_fs m3) (Some (mkF v 0 total)))) (Open false), Some false)
       end
     end
   end.
 
-(* one call of colvarmodule::write_restart_file(out_name) for state v *)
-Definition save (m : mach) (v : N) (chunks : list N) (tail : N) : mach * result :=
+(* one save of state v by writer w *)
+Definition save_w (w : writer) (m : mach) (v : N) (chunks : list N) (tail : N) : mach * result :=
   match m_reg m with
   | Open true =>
     (* remove_file(tmp) is still issued; then the registered failed stream is returned: COLVARS_FILE_ERROR *)
@@ -177,41 +197,46 @@ Definition save (m : mach) (v : N) (chunks : list N) (tail : N) : mach * result 
     | OErr => (m0, Done false)
     | OOk => (set_fs m0 (set_tmp (m_fs m0) None), Done false)
     end
-  | Open false => body m chunks tail         (* not reachable from `start`: every save leaves NotOpen or Open true *)
+  | Open false => body w m chunks tail       (* not reachable from `start`: every save leaves NotOpen or Open true *)
   | NotOpen =>
-    let '(m1, b) := open_tmp m v (total_of chunks tail) in
+    let '(m1, b) := open_tmp w m v (total_of chunks tail) in
     match b with
     | None => (m1, Dead)
     | Some true => (m1, Done false)
-    | Some false => body m1 chunks tail
+    | Some false => body w m1 chunks tail
     end
   end.
+
+(* one call of colvarmodule::write_restart_file(out_name) for state v *)
+Definition save := save_w W_restart.
 
 Record saveop := mkS { s_ver : N; s_chunks : list N; s_tail : N }.
 
 (* one process: saves until it dies or runs out of work (a host that goes on saving after errors) *)
-Fixpoint session (m : mach) (l : list saveop) : mach * list result :=
+Fixpoint session_w (w : writer) (m : mach) (l : list saveop) : mach * list result :=
   match l with
   | [] => (m, [])
   | s :: r =>
-    let '(m1, res) := save m (s_ver s) (s_chunks s) (s_tail s) in
+    let '(m1, res) := save_w w m (s_ver s) (s_chunks s) (s_tail s) in
     match res with
     | Dead => (m1, [Dead])
-    | _ => let '(m2, rs) := session m1 r in (m2, res :: rs)
+    | _ => let '(m2, rs) := session_w w m1 r in (m2, res :: rs)
     end
   end.
+Definition session := session_w W_restart.
 
 Definition start (fs : fsys) (plan : list outcome) : mach := mkM fs NotOpen plan [].
 
 (* several processes one after the other on the same directory *)
-Fixpoint history (fs : fsys) (h : list (list saveop * list outcome)) : fsys * list (list result * list sysop) :=
+Fixpoint history_w (w : writer) (fs : fsys) (h : list (list saveop * list outcome)) : fsys * list (list result * list sysop) :=
   match h with
   | [] => (fs, [])
   | (l, plan) :: r =>
-    let '(m, rs) := session (start fs plan) l in
-    let '(fs', out) := history (m_fs m) r in
+    let '(m, rs) := session_w w (start fs plan) l in
+    let '(fs', out) := history_w w (m_fs m) r in
     (fs', (rs, m_trace m) :: out)
   end.
+Definition history := history_w W_restart.
 
 Definition empty_fs : fsys := mkFS None None None.
 Definition is_done (r : result) : bool := match r with Done true => true | _ => false end.
